@@ -285,8 +285,8 @@ func regionPaths(from, to *ssa.BasicBlock, limit int) ([]regionPath, bool) {
 		defer func() { seen[b] = false }()
 		switch t := b.Instrs[len(b.Instrs)-1].(type) {
 		case *ssa.If:
-			walk(b.Succs[0], append(acc, domCond{t.Cond, true}), seen)
-			walk(b.Succs[1], append(acc, domCond{t.Cond, false}), seen)
+			walk(b.Succs[0], append(acc, domCond{cond: t.Cond, truth: true}), seen)
+			walk(b.Succs[1], append(acc, domCond{cond: t.Cond, truth: false}), seen)
 		case *ssa.Jump:
 			if b.Succs[0] == to {
 				out = append(out, append(regionPath{}, acc...))
@@ -301,6 +301,16 @@ func regionPaths(from, to *ssa.BasicBlock, limit int) ([]regionPath, bool) {
 
 // sigAtomOf names a branch condition: flag(K), has(K), !x, or its canonical term.
 func sigAtomOf(v ssa.Value) (atom string, neg bool, hasRecv ssa.Value) {
+	return sigAtomOfB(v, nil)
+}
+
+func sigAtomOfB(v ssa.Value, bind map[ssa.Value]ssa.Value) (atom string, neg bool, hasRecv ssa.Value) {
+	res := func(x ssa.Value) ssa.Value {
+		if y, ok := bind[x]; ok {
+			return y
+		}
+		return x
+	}
 	for {
 		if u, ok := v.(*ssa.UnOp); ok && u.Op == token.NOT {
 			v = u.X
@@ -313,17 +323,139 @@ func sigAtomOf(v ssa.Value) (atom string, neg bool, hasRecv ssa.Value) {
 		if sc := call.Call.StaticCallee(); sc != nil {
 			switch {
 			case sc.Name() == "hasFlag" && len(call.Call.Args) == 2:
-				if k, ok := call.Call.Args[1].(*ssa.Const); ok {
+				if k, ok := res(call.Call.Args[1]).(*ssa.Const); ok {
 					return "flag(" + k.Value.ExactString() + ")", neg, nil
 				}
 			case sc.Name() == "Has" && len(call.Call.Args) == 2:
-				if k, ok := call.Call.Args[1].(*ssa.Const); ok {
-					return "has(" + k.Value.ExactString() + ")", neg, call.Call.Args[0]
+				if k, ok := res(call.Call.Args[1]).(*ssa.Const); ok {
+					return "has(" + k.Value.ExactString() + ")", neg, res(call.Call.Args[0])
 				}
 			}
 		}
 	}
 	return atomName(newTermEnv().Term(v)), neg, nil
+}
+
+// expandPredicates: a branch on a call to a side-effect-free boolean helper of the module (a
+// guard moved into a named predicate) is replaced by the helper's own branch conditions, its
+// parameters bound to the call's arguments.
+func expandPredicates(paths []regionPath) []regionPath {
+	var out []regionPath
+	for _, p := range paths {
+		alts := []regionPath{{}}
+		for _, dc := range p {
+			exp, ok := expandPredicate(dc)
+			if !ok {
+				for i := range alts {
+					alts[i] = append(alts[i], dc)
+				}
+				continue
+			}
+			var next []regionPath
+			for _, a := range alts {
+				for _, e := range exp {
+					next = append(next, append(append(regionPath{}, a...), e...))
+				}
+			}
+			alts = next
+		}
+		out = append(out, alts...)
+	}
+	return out
+}
+
+func expandPredicate(dc domCond) ([]regionPath, bool) {
+	v, want := dc.cond, dc.truth
+	for {
+		if u, ok := v.(*ssa.UnOp); ok && u.Op == token.NOT {
+			v, want = u.X, !want
+			continue
+		}
+		break
+	}
+	call, ok := v.(*ssa.Call)
+	if !ok {
+		return nil, false
+	}
+	sc := call.Call.StaticCallee()
+	if sc == nil || sc.Blocks == nil || sc.Pkg == nil || !strings.HasPrefix(sc.Pkg.Pkg.Path(), modPath) || sc.Name() == "hasFlag" || sc.Name() == "Has" {
+		return nil, false
+	}
+	if r := sc.Signature.Results(); r.Len() != 1 || !types.Identical(r.At(0).Type().Underlying(), types.Typ[types.Bool]) {
+		return nil, false
+	}
+	// side-effect free and loop free: only branches, pure getters and value operations
+	for _, b := range sc.Blocks {
+		for _, s := range b.Succs {
+			if s.Index <= b.Index && s.Dominates(b) {
+				return nil, false
+			}
+		}
+		for _, ins := range b.Instrs {
+			switch x := ins.(type) {
+			case *ssa.If, *ssa.Jump, *ssa.Return, *ssa.Phi, *ssa.UnOp, *ssa.BinOp, *ssa.Convert, *ssa.ChangeType, *ssa.FieldAddr, *ssa.DebugRef:
+			case *ssa.Call:
+				cc := x.Call.StaticCallee()
+				if cc == nil || !(cc.Name() == "hasFlag" || cc.Name() == "Has") {
+					return nil, false
+				}
+			default:
+				return nil, false
+			}
+		}
+	}
+	bind := map[ssa.Value]ssa.Value{}
+	for k, val := range dc.bind {
+		bind[k] = val
+	}
+	for i, p := range sc.Params {
+		if i < len(call.Call.Args) {
+			a := call.Call.Args[i]
+			if b, ok := dc.bind[a]; ok {
+				a = b
+			}
+			bind[p] = a
+		}
+	}
+	var out []regionPath
+	var walk func(b, prev *ssa.BasicBlock, acc regionPath, depth int) bool
+	walk = func(b, prev *ssa.BasicBlock, acc regionPath, depth int) bool {
+		if depth > 40 || len(out) > 64 {
+			return false
+		}
+		switch t := b.Instrs[len(b.Instrs)-1].(type) {
+		case *ssa.If:
+			return walk(b.Succs[0], b, append(append(regionPath{}, acc...), domCond{t.Cond, true, bind}), depth+1) &&
+				walk(b.Succs[1], b, append(append(regionPath{}, acc...), domCond{t.Cond, false, bind}), depth+1)
+		case *ssa.Jump:
+			return walk(b.Succs[0], b, acc, depth+1)
+		case *ssa.Return:
+			rv := t.Results[0]
+			if ph, ok := rv.(*ssa.Phi); ok && ph.Block() == b && prev != nil {
+				for i, p := range b.Preds {
+					if p == prev {
+						rv = ph.Edges[i]
+					}
+				}
+			}
+			if k, ok := rv.(*ssa.Const); ok {
+				if constant.BoolVal(k.Value) == want {
+					out = append(out, acc)
+				}
+				return true
+			}
+			if _, isPhi := rv.(*ssa.Phi); isPhi {
+				return false
+			}
+			out = append(out, append(append(regionPath{}, acc...), domCond{rv, want, bind}))
+			return true
+		}
+		return false
+	}
+	if !walk(sc.Blocks[0], nil, nil, 0) {
+		return nil, false
+	}
+	return out, true
 }
 
 // truthTable of a DNF over the atoms it mentions.
@@ -332,7 +464,7 @@ func dnfTable(paths []regionPath) (atoms []string, table map[string]bool, recv m
 	recv = map[string]ssa.Value{}
 	for _, p := range paths {
 		for _, dc := range p {
-			a, _, r := sigAtomOf(dc.cond)
+			a, _, r := sigAtomOfB(dc.cond, dc.bind)
 			set[a] = true
 			if r != nil {
 				recv[a] = r
@@ -356,7 +488,7 @@ func dnfTable(paths []regionPath) (atoms []string, table map[string]bool, recv m
 		for _, p := range paths {
 			all := true
 			for _, dc := range p {
-				a, neg, _ := sigAtomOf(dc.cond)
+				a, neg, _ := sigAtomOfB(dc.cond, dc.bind)
 				if (val[a] != neg) != dc.truth {
 					all = false
 					break
@@ -481,6 +613,7 @@ func ruleGLegacy(c *Ctx) {
 				c.Undecided("G-legacy", key, call.Pos(), "cannot enumerate the conditions guarding the removal")
 				continue
 			}
+			paths = expandPredicates(paths)
 			atoms, table, recv := dnfTable(paths)
 			fA, hA := fmt.Sprintf("flag(%d)", forkFlag), fmt.Sprintf("has(%d)", forkBit)
 			okAtoms := len(atoms) == 2 && atoms[0] == fA && atoms[1] == hA
@@ -512,6 +645,12 @@ func ruleGLegacy(c *Ctx) {
 // ruleSSub: thread.subScript returns scripts[scriptIdx][lastCodeSep+1:] once a separator has run and the
 // whole script otherwise; opcodeCodeSeparator records the current offset.
 func ruleSSub(c *Ctx) {
+	ruleSSubGrid(c)
+	ruleSSubUse(c)
+}
+
+// ruleSSubGrid: where the script code starts (also the premise of the trusted slice site of subScript in C07).
+func ruleSSubGrid(c *Ctx) {
 	fn := c.P.Func("bscript/interpreter", "*thread", "subScript")
 	if fn == nil {
 		c.Undecided("S-sub", "thread.subScript", token.NoPos, "not found")
@@ -555,6 +694,10 @@ func ruleSSub(c *Ctx) {
 					}
 					hits++
 					rt := d.Env.Term(d.Ret.Results[0])
+					if atomName(rt) == "p0.scripts[p0.scriptIdx]" {
+						lo = "0" // the whole script
+						continue
+					}
 					if rt.K != "slice" || atomName(rt.Args[0]) != "p0.scripts[p0.scriptIdx]" {
 						c.Fail("S-sub", "thread.subScript", fn.Pos(), "subScript does not return a tail of the current script: "+atomName(rt))
 						return
@@ -580,6 +723,9 @@ func ruleSSub(c *Ctx) {
 	}
 	c.Covered["S-sub:cells"] = cells
 	c.Check(bad == "", "S-sub", "thread.subScript", fn.Pos(), fmt.Sprintf("script code starts after the last executed OP_CODESEPARATOR, at 0 when none ran (%d cells, including a separator at offset 0)", cells), "subScript's start of the script code is wrong: "+bad)
+}
+
+func ruleSSubUse(c *Ctx) {
 	// OP_CODESEPARATOR records its own offset
 	if h := c.P.Func("bscript/interpreter", "", "opcodeCodeSeparator"); h != nil {
 		ok := false
